@@ -45,6 +45,8 @@ type c17Sel struct {
 var c17Pool = []c17Agg{
 	{"count", "*"}, {"count", "v"}, {"sum", "v"}, {"avg", "v"}, {"min", "v"}, {"max", "v"},
 	{"count", "w"}, {"sum", "w"}, {"avg", "w"}, {"min", "w"}, {"max", "w"},
+	// aggregates over an expression that is evaluated per row
+	{"sum", "v*2"}, {"max", "v + w"}, {"min", "v*2"},
 }
 
 // c17Value draws an aggregate input: small ints, halves and quarters (all exactly representable),
